@@ -119,7 +119,7 @@ CHECKS = {
                        "and no overlapping calls, including Flatten's obtained inner streams and all Join/Merge arguments"),
         "level_note": "Inner enumeration (stop point x fault) is exhaustive per generated input; outer choice is random (rapid). Trusts the call log of sk.RecStream (atomic in-call flag, mutex-protected counters).",
         "technique": "fault and stop-point enumeration over rapid-generated inputs; call-log invariant on instrumented sources",
-        "rule": ("kind own-enum(-bg) = one generated base case; kind own-case(-bg) = one (base, stop point, fault) execution. non-trivial = the consumer stopped strictly inside the sequence (0 < j, not at End) or a fault was "
+        "rule": ("kind own-enum(-bg) = one generated base case (sources may answer under an ended context like any other call - 'lax' - and E may wrap a context error); kind own-case(-bg) = one (base, stop point, fault) execution; kind join-shared-args = Joins built from parts of one argument slice with spare capacity, a Join of a Join, a bystander stream (non-trivial = a Join was given to another Join). non-trivial = the consumer stopped strictly inside the sequence (0 < j, not at End) or a fault was "
                  "actually delivered, i.e. some owned stream is still open when the consumer walks away; distinct = distinct case JSON"),
         "assumptions": ["sk.RecStream call log", "rapid v1.3.0; go1.26.8 testing/synctest"],
         "jobs": [{"pkg": "c09own", "kinds": ["own-enum", "own-case", "own-enum-bg", "own-case-bg", "join-shared-args"], "scale_thorough": 10, "shards_thorough": 16, "replay_reps": 20}],
@@ -131,7 +131,7 @@ CHECKS = {
                        "d-jitter, constructor/Reset panic exactly outside the documented domain, nothing delivered after Stop"),
         "level_note": "Trusts testing/synctest's fake clock (go1.26.8) and the arithmetic in c20time; ties (remaining == d, already-done context with a near deadline) accept both outcomes; only the lower spacing bound is asserted.",
         "technique": "property-based testing (rapid) on a fake clock (testing/synctest) with exact time arithmetic as oracle",
-        "rule": ("kinds 'sleep' and 'ticker' (fake clock) and 'sleep-old-timers' (real clock, asynctimerchan=1: sequences of 2-30 SleepContext calls, some cancelled within 100 us of their own timer firing; nil needs >= d of measured time; non-trivial = at least 3 calls). non-trivial: sleep = a deadline strictly inside (0,d), a mid-sleep cancel, or deadline+cancel; ticker = in-domain with jitter in {0, d-1} or a Reset/Stop in the timeline; distinct = distinct plan JSON"),
+        "rule": ("kinds 'sleep' and 'ticker' (fake clock) and 'sleep-old-timers' (real clock, asynctimerchan=1: sequences of 2-30 SleepContext calls, some cancelled within 100 us of their own timer firing; nil needs >= d of measured time; non-trivial = at least 3 calls), 'ticker-starved' (real clock, GOMAXPROCS 1, the P is kept busy for 2-3.5 periods so that a tick is delivered late; stamps of consecutive ticks stay >= d - jitter apart) and 'ticker-race' (2-6 tickers reset concurrently under the race detector). Sleep plans include durations up to MaxInt64 and contexts that report a deadline without ever signalling Done; ticker periods go up to MaxInt64. non-trivial: sleep = a deadline strictly inside (0,d), a mid-sleep cancel, or deadline+cancel; ticker = in-domain with jitter in {0, d-1} or a Reset/Stop in the timeline; distinct = distinct plan JSON"),
         "assumptions": ["testing/synctest fake clock", "rapid v1.3.0; go1.26.8"],
         "jobs": [{"pkg": "c20time", "run": "TestSleepContext|TestJitterTicker", "kinds": ["sleep", "ticker"], "scale_thorough": 10, "shards_thorough": 16},
                  {"pkg": "c20time", "race": True, "run": "TestTickerRace", "kinds": ["ticker-race"], "scale_thorough": 4, "shards_thorough": 4},
@@ -169,7 +169,7 @@ CHECKS = {
                        "history is judged: only sent values, none twice, per-sender FIFO, accepted-before-Close delivered before the end, sticky end, valid results, and no call still blocked at a quiescence point where the property says it must have returned"),
         "level_note": "Schedules are explored by script structure and repetition, not exhaustively; 'stuck' is decided by durable-block detection, not timeouts. Sends are never started after the sender's Close was started (misuse).",
         "technique": "property-based testing (rapid) of generated actor scripts in testing/synctest bubbles; history-invariant oracle",
-        "rule": ("kinds pipe (scripted plans: buffer in {0,1,2,5}, 1-3 senders, 1-24 steps incl. tryburst = all senders TrySend at once, contexts that end by cancel or - 'deadlines' plans - by deadline on the fake clock and may be reused after they ended, + drain epilogue) and pipe-storm (500-3000 short-lived pipes per case on real goroutines: 1-4 values then Close after a swept busy delay, blocking or ended-context-polling consumer; every storm case counts as non-trivial); pipe plans: non-trivial = Close called while accepted values were still buffered (buffer >= 1), or Sends of two sender actors overlapped, or a Send was blocked when the receiver closed; distinct = distinct plan JSON; R=5/20 executions each"),
+        "rule": ("kinds pipe (scripted plans: buffer in {0,1,2,5}, 1-3 senders, 1-24 steps incl. tryburst = all senders TrySend at once, contexts that end by cancel or - 'deadlines' plans - by deadline on the fake clock and may be reused after they ended, + drain epilogue) and pipe-storm (500-3000 short-lived pipes per case on real goroutines: 1-4 values then Close after a swept busy delay, blocking or ended-context-polling consumer; every storm case counts as non-trivial) and pipe-parked (real clock, own process: with one Send parked, TrySend / TrySend under an ended context / Send with a 5 ms timeout / the receiver's Close each return within 5 s); pipe plans: non-trivial = Close called while accepted values were still buffered (buffer >= 1), or Sends of two sender actors overlapped, or a Send was blocked when the receiver closed; distinct = distinct plan JSON; R=5/20 executions each"),
         "assumptions": ["testing/synctest durable-block detection", "logical stamps taken by the actors bracket the library calls", "rapid v1.3.0; go1.26.8"],
         "jobs": [{"pkg": "c10pipe", "run": "TestPipeParked", "kinds": ["pipe-parked"], "scale_thorough": 4, "shards_thorough": 2},
                  {"pkg": "c10pipe", "run": "TestPipe$|TestPipeStorm", "kinds": ["pipe", "pipe-storm"], "scale_thorough": 8, "shards_thorough": 16, "replay_reps": 200},
@@ -182,7 +182,7 @@ CHECKS = {
                        "exactly when all inputs are exhausted and everything is delivered (not earlier, and it is not durably blocked afterwards), stream.Merge reports an input's error and never the end after it, and after Close every input is closed once and the bubble exits"),
         "level_note": "Interleavings are explored by generated gaps/paces and repetition (select randomness), not exhaustively. Trusts testing/synctest and sk.RecStream.",
         "technique": "property-based testing (rapid) of generated producer/consumer scripts in testing/synctest bubbles; multiset/order/termination oracle",
-        "rule": ("kinds chans-merge, chans-merge-iface (chan error carrying nil values), replicate, stream-merge, stream-merge-burst (many rounds of inputs that end at the same instant). non-trivial = >= 2 non-empty inputs of different lengths (one closes while another still has values), or arity in {0,1}, or an early Close (stream.Merge); replicate: >= 2 destinations and >= 2 values, or zero destinations; distinct = distinct plan JSON; R=3/10"),
+        "rule": ("kinds chans-merge, chans-merge-iface (chan error carrying nil values), replicate, stream-merge, stream-merge-burst (many rounds of inputs that end at the same instant), chans-merge-shared (another goroutine receives from input 0 as well; merged + taken = sent), stream-merge-error-storm (one failing input among idle context-aware ones, 100-500 rounds per case), replicate-iface (chan error with nil values, 0-5 destinations); merges of up to 130 inputs. non-trivial = >= 2 non-empty inputs of different lengths (one closes while another still has values), or arity in {0,1}, or an early Close (stream.Merge); replicate: >= 2 destinations and >= 2 values, or zero destinations; distinct = distinct plan JSON; R=3/10"),
         "assumptions": ["testing/synctest durable-block detection", "rapid v1.3.0; go1.26.8"],
         "jobs": [{"pkg": "c12merge", "kinds": ["chans-merge", "chans-merge-iface", "replicate", "stream-merge", "stream-merge-burst", "chans-merge-shared", "stream-merge-error-storm", "replicate-iface"], "scale_thorough": 10, "shards_thorough": 16, "replay_reps": 30},
                  {"pkg": "c12merge", "race": True, "kinds": ["chans-merge", "chans-merge-iface", "replicate", "stream-merge", "stream-merge-burst", "chans-merge-shared", "stream-merge-error-storm", "replicate-iface"], "scale_quick": 0.15, "scale_thorough": 2, "shards_thorough": 4, "replay_reps": 20}],
@@ -206,7 +206,7 @@ CHECKS = {
                        "bufferSize+parallelism+1, no deadlock (durable-block detection), failures are errors the source or f returned, never a result beyond a failed item, Close returns with the source closed once and no goroutine left"),
         "level_note": "The gauge is read only at quiescence, where both counters are exact; interleavings come from generated latencies/paces and repetition.",
         "technique": "property-based testing (rapid) in testing/synctest bubbles; order/gauge/error-provenance oracle",
-        "rule": ("kinds map-iterator, map-stream (scripted bubble plans) and map-storm (5000-40000 zero-latency items per case in a bubble, every (parallelism, buffer) shape; non-trivial = parallelism >= 2). scripted plans: non-trivial = completion order differed from source order AND the gauge reached its bound (back-pressure engaged), or a failure surfaced with results still in flight; distinct = distinct plan JSON; R=3/10"),
+        "rule": ("kinds map-iterator, map-stream (scripted bubble plans) and map-storm (5000-40000 zero-latency items per case in a bubble, every (parallelism, buffer) shape; non-trivial = parallelism >= 2) and map-finish-storm (0-3 items, 4-64 workers that all finish at the same instant, 300-1500 rounds per case). scripted plans (a failing f may return an error that wraps a context error; a source may block, idle, until its context ends): non-trivial = completion order differed from source order AND the gauge reached its bound (back-pressure engaged), or a failure surfaced with results still in flight; distinct = distinct plan JSON; R=3/10"),
         "assumptions": ["testing/synctest", "rapid v1.3.0; go1.26.8"],
         "jobs": [{"pkg": "c14mapit", "kinds": ["map-iterator", "map-stream", "map-storm", "map-finish-storm"], "scale_thorough": 8, "shards_thorough": 16, "replay_reps": 30},
                  {"pkg": "c14mapit", "race": True, "kinds": ["map-iterator", "map-stream", "map-storm", "map-finish-storm"], "scale_quick": 0.1, "scale_thorough": 2, "shards_thorough": 4, "replay_reps": 20}],
@@ -218,7 +218,7 @@ CHECKS = {
                        "and 1-3 observer loops; Future: waiters before/after Fill with and without deadlines on the fake clock; Lazy: racing first calls"),
         "level_note": "sync.Map is the reference for the typed map (xsync.Map adds no synchronisation of its own); the concurrent clauses are explored by generated timings and repetition in testing/synctest bubbles.",
         "technique": "property-based differential testing (rapid) against sync.Map; model-based and bubble-script checks for Watchable/Future/Lazy",
-        "rule": ("kinds map (int and interface keys incl. the nil key), watchable-seq, watchable-conc, watchable-first-set (many fresh Watchables per case, Value racing the first Set), future (deadline and cancel-only contexts), future-race, lazy. non-trivial: map = a load-type op hit an absent key and (for interface V) a present key holding a nil interface; watchable-seq = Value before the first Set and Set-Set-Value; "
+        "rule": ("kinds map (int and interface keys incl. the nil key), watchable-seq, watchable-conc, watchable-first-set (many fresh Watchables per case, Value racing the first Set), future (deadline and cancel-only contexts), future-race, lazy, sync-storm (real parallelism: LoadOrStore / LoadAndDelete of one key from 3-6 goroutines, 300-2000 back-to-back Sets from 1-3 setters against 1-3 observer loops; always non-trivial); map plans include Range with a callback that deletes the other keys. non-trivial: map = a load-type op hit an absent key and (for interface V) a present key holding a nil interface; watchable-seq = Value before the first Set and Set-Set-Value; "
                  "watchable-conc = an observer saw the zero value before a Set or several Sets between two of its Values; future = a waiter present at Fill, >= 2 waiters; lazy = >= 2 racing callers; distinct = distinct plan JSON"),
         "assumptions": ["sync.Map as reference", "testing/synctest", "rapid v1.3.0; go1.26.8"],
         "jobs": [{"pkg": "c18sync", "run": "TestMap|TestWatchable|TestFuture$|TestLazy|TestSyncStorm", "kinds": ["map", "watchable-seq", "watchable-conc", "watchable-first-set", "future", "lazy", "sync-storm"], "scale_thorough": 10, "shards_thorough": 16, "replay_reps": 20},
@@ -232,11 +232,11 @@ CHECKS = {
         "level_note": "Interleavings come from generated times (ties at the same fake instant race for real) and repetition. The trigger obligation is only demanded for calls at least 2 x run-time before the stop, the periodic bound is deliberately loose.",
         "technique": "property-based testing (rapid) of generated timelines in testing/synctest bubbles; run-log invariants",
         "rule": ("kinds group (timelines: 1-5 registrations, 0-12 trigger events incl. concurrent bursts, one stop incl. parent cancel/deadline), stop-storm (goroutines keep calling Do while the group is stopped, 5-30 rounds per case), "
-                 "trigger-first-call (racing first calls of a trigger function, then triggers during runs), trigger-storm (a trigger 0-256 busy iterations after a run has finished, 1000-5000 rounds per case, decided at quiescence), pot-old-timers (PeriodicOrTrigger under asynctimerchan=1 on the real clock). group plans: non-trivial = a trigger call landed while its function was running, or a registration raced with the stop; distinct = distinct plan JSON; R=3/10"),
+                 "trigger-first-call (racing first calls of a trigger function, then triggers during runs), trigger-storm (a trigger 0-256 busy iterations after a run has finished, 1000-5000 rounds per case, decided at quiescence; or 3-4 callers pacing themselves around the end of every run: runs never overlap), pot-old-timers (PeriodicOrTrigger under asynctimerchan=1 on the real clock), pot-trigger-real (real clock, interval 1 h: the second trigger of every round is aimed at the end of the run the first one started; a run begins after it within 3 s). group plans: non-trivial = a trigger call landed while its function was running, or a registration raced with the stop; distinct = distinct plan JSON; R=3/10"),
         "assumptions": ["testing/synctest", "rapid v1.3.0; go1.26.8"],
         "jobs": [{"pkg": "c17old", "kinds": ["pot-old-timers", "pot-trigger-real"], "scale_thorough": 4, "shards_thorough": 4},
-                 {"pkg": "c17group", "kinds": ["group", "stop-storm", "trigger-first-call", "trigger-storm"], "scale_thorough": 10, "shards_thorough": 16, "replay_reps": 30},
-                 {"pkg": "c17group", "race": True, "kinds": ["group", "stop-storm", "trigger-first-call", "trigger-storm"], "scale_quick": 0.15, "scale_thorough": 2, "shards_thorough": 4, "replay_reps": 20}],
+                 {"pkg": "c17group", "kinds": ["group", "stop-storm", "trigger-first-call", "trigger-storm"], "scale_thorough": 3, "shards_thorough": 16, "replay_reps": 30},
+                 {"pkg": "c17group", "race": True, "kinds": ["group", "stop-storm", "trigger-first-call", "trigger-storm"], "scale_quick": 0.15, "scale_thorough": 1, "shards_thorough": 4, "replay_reps": 20}],
     },
     "C19": {
         "level": "exploration",
